@@ -1,32 +1,37 @@
 #!/venv/bin/python
-"""tools/try_seed.py <seed-dir> <Cxx> [<Cyy> ...]   apply patch.diff to /repo, run repo tests + demo + the named quick checks, revert."""
-import json, os, subprocess, sys, time
+"""tools/try_seed.py <seed-dir> <Cxx> [<Cyy> ...]
+Evaluate a seeded change on a scratch copy of /repo's working tree (outside /repo and /verif): apply patch.diff, run the
+repository tests, the demo and the named quick checks against the copy (DREYE_VERIF_REPO), delete the copy; then run the
+demo against the unchanged /repo.  (Equivalent to `git -C /repo apply` + checks + `git checkout -- .`, but safe to run
+while other jobs use /repo.)"""
+import json, os, shutil, subprocess, sys, tempfile, time
 d = os.path.abspath(sys.argv[1])
 checks = sys.argv[2:]
 patch = os.path.join(d, "patch.diff")
 def sh(cmd, **kw):
     return subprocess.run(cmd, shell=True, capture_output=True, text=True, **kw)
-st = sh("git -C /repo status --porcelain --untracked-files=no")
-assert st.stdout.strip() == "", "repo not clean: " + st.stdout
 r = sh("git -C /repo apply --check %s" % patch)
 if r.returncode:
     print("PATCH DOES NOT APPLY", r.stderr); sys.exit(2)
 res = {"seed": d}
-env = dict(os.environ, PYTHONPATH="/repo")
+c = tempfile.mkdtemp(prefix="dreye-seed-", dir="/tmp")
 try:
-    sh("git -C /repo apply %s" % patch)
-    t = sh("cd /repo && /venv/bin/python -m pytest -q -p no:cacheprovider --timeout=900 2>&1 | tail -1")
+    sh("cd /repo && git ls-files -z dreye tests setup.py | xargs -0 tar cf - | tar xf - -C %s" % c)
+    r = sh("cd %s && git apply %s" % (c, patch))
+    assert r.returncode == 0, r.stderr
+    t = sh("cd %s && /venv/bin/python -m pytest -q -p no:cacheprovider --timeout=900 2>&1 | tail -1" % c)
     res["tests_with_patch"] = t.stdout.strip()
-    dm = sh("cd /tmp && /venv/bin/python %s/demo.py" % d, env=env)
+    dm = sh("cd /tmp && /venv/bin/python %s/demo.py" % d, env=dict(os.environ, PYTHONPATH=c))
     res["demo_with_patch_rc"] = dm.returncode
-    for c in checks:
+    env = dict(os.environ, DREYE_VERIF_REPO=c, VERIF_EVIDENCE_DIR=os.path.join(c, "_ev"), VERIF_REPLAY_DIR=os.path.join(c, "_rp"))
+    for ck in checks:
         t0 = time.time()
-        r = sh("cd /verif && ./check %s --tier quick" % c)
+        r = sh("cd /verif && ./check %s --tier quick" % ck, env=env)
         nv = sum(1 for l in r.stdout.splitlines() if l.startswith("VIOLATION"))
         first = [l for l in r.stderr.splitlines() if l.strip().startswith("class clause")][:3]
-        res["check_" + c] = dict(rc=r.returncode, violations=nv, wall=round(time.time() - t0, 1), first=first)
+        res["check_" + ck] = dict(rc=r.returncode, violations=nv, wall=round(time.time() - t0, 1), first=first)
 finally:
-    sh("git -C /repo checkout -- .")
-dm = sh("cd /tmp && /venv/bin/python %s/demo.py" % d, env=env)
+    shutil.rmtree(c, ignore_errors=True)
+dm = sh("cd /tmp && /venv/bin/python %s/demo.py" % d, env=dict(os.environ, PYTHONPATH="/repo"))
 res["demo_clean_rc"] = dm.returncode
 print(json.dumps(res, indent=1))
